@@ -8,12 +8,12 @@ import json
 import os
 import random
 
-PATHS = [("a",), ("a", "b"), ("a", "b", "c"), ("d",), ("d", "e")]
+PATHS = [("a",), ("a", "b"), ("a", "b", "c"), ("a", "d"), ("e",)]
 # the random scripts use a slightly larger universe
-RPATHS = [["a"], ["a", "b"], ["a", "b", "c"], ["a", "e"], ["d"], ["d", "e"], ["d", "e", "c"], ["f"]]
+RPATHS = [["a"], ["a", "b"], ["a", "b", "c"], ["a", "e"], ["d"], ["d", "e"], ["d", "e", "c"], ["f"], ["ab"], ["ab", "c"]]
 STORES_QUICK = ["leveldb2"]
 STORES_THOROUGH = ["leveldb2", "leveldb", "leveldb3"]
-NOCONST = {"Paths": set(), "Chunks": set(), "Attrs": set(), "MaxLinks": 0, "MaxOps": 0, "Mix": set()}
+NOCONST = {"Paths": set(), "Chunks": set(), "Attrs": set(), "MaxLinks": 0, "MaxOps": 0, "Mix": set(), "Dev": False}
 
 
 def cfg_text(fragment, *extra):
@@ -21,9 +21,9 @@ def cfg_text(fragment, *extra):
         return f.read().rstrip("\n") + "\n" + "\n".join(extra) + "\n"
 
 
-def consts(mix, chunks, attrs, depth, links=2):
+def consts(mix, chunks, attrs, depth, links=2, dev=False):
     return {"Paths": set(PATHS), "Chunks": set(chunks), "Attrs": set(attrs), "MaxLinks": links,
-            "MaxOps": depth, "Mix": set(mix)}
+            "MaxOps": depth, "Mix": set(mix), "Dev": dev}
 
 
 def norm_op(op, rng):
@@ -50,16 +50,22 @@ def observers(rng, paths, ops, p_obs):
     return out
 
 
-def random_scripts(rng, n, length, weights, links=True, max_chunk=60):
-    """G4: seeded random input scripts.  No state of the filer is modelled here: chunk ids come
-    from a counter (so a chunk normally belongs to one file); a write may keep some of the ids this
-    script last wrote to the same path (overwrite / append with shared chunks)."""
+def random_scripts(rng, n, length, weights, max_chunk=60):
+    """G4: seeded random input scripts.  No state of the filer is modelled here, only a memory of the
+    script's own inputs: chunk ids come from a counter (so a chunk normally belongs to one file); a
+    write may keep some of the ids the script last wrote to the same name (or to a name it linked to
+    it) - overwrite / append with shared chunks; operands are mostly names the script has used."""
     kinds = [k for k, w in weights.items() for _ in range(w)]
     out = []
     for _ in range(n):
         ops = []
         nxt = [1]
-        lastw = {}
+        lastw = {}   # alias group -> chunk ids last written by this script
+        group = {}   # path -> alias group (names the script linked together)
+        made = []
+
+        def grp(p):
+            return group.setdefault(tuple(p), tuple(p))
 
         def fresh(k):
             ids = []
@@ -71,40 +77,94 @@ def random_scripts(rng, n, length, weights, links=True, max_chunk=60):
 
         def content(p):
             keep = []
-            old = lastw.get(tuple(p), [])
-            if old and rng.random() < 0.5:
+            old = lastw.get(grp(p), [])
+            if old and rng.random() < 0.6:
                 keep = [c for c in old if rng.random() < 0.6]
             ids = sorted(set(keep + fresh(rng.choice([0, 1, 1, 2]))))
-            lastw[tuple(p)] = ids
+            lastw[grp(p)] = ids
             return ids
+
+        def pick():
+            if made and rng.random() < 0.7:
+                return list(rng.choice(made))
+            return list(rng.choice(RPATHS))
 
         for _ in range(length):
             k = rng.choice(kinds)
-            p = list(rng.choice(RPATHS))
             if k == "create":
-                kind = "d" if rng.random() < 0.25 else "f"
+                p = list(rng.choice(RPATHS)) if rng.random() < 0.6 else pick()
+                kind = "d" if rng.random() < 0.2 else "f"
+                if kind == "f" and rng.random() < 0.5:
+                    group[tuple(p)] = tuple(p) + ("#%d" % len(ops),)   # a fresh entry: forget what was there
                 ops.append({"ev": "create", "p": p, "kind": kind, "chunks": content(p) if kind == "f" else [],
                             "attr": rng.randint(1, 4) if kind == "f" else 0, "oexcl": rng.random() < 0.15})
+                made.append(p)
             elif k == "update":
+                p = pick()
                 kind = "d" if rng.random() < 0.15 else "f"
+                if kind == "f" and rng.random() < 0.5:
+                    group[tuple(p)] = tuple(p) + ("#%d" % len(ops),)
                 ops.append({"ev": "update", "p": p, "kind": kind, "chunks": content(p) if kind == "f" else [],
                             "attr": rng.randint(1, 4) if kind == "f" else 0})
             elif k == "write":
+                p = pick()
                 ops.append({"ev": "write", "p": p, "chunks": content(p), "attr": rng.randint(1, 4),
                             "via": rng.choice(["create", "update"])})
             elif k == "link":
-                ops.append({"ev": "link", "o": p, "n": list(rng.choice(RPATHS))})
+                o, nn = pick(), list(rng.choice(RPATHS))
+                group[tuple(nn)] = grp(o)
+                ops.append({"ev": "link", "o": o, "n": nn})
+                made.append(nn)
             elif k == "delete":
-                ops.append({"ev": "delete", "p": p, "rec": rng.random() < 0.6, "data": rng.random() < 0.7,
+                ops.append({"ev": "delete", "p": pick(), "rec": rng.random() < 0.6, "data": rng.random() < 0.7,
                             "ign": rng.random() < 0.3})
             elif k == "rename":
-                ops.append({"ev": "rename", "o": p, "n": list(rng.choice(RPATHS))})
+                o, nn = pick(), list(rng.choice(RPATHS))
+                group[tuple(nn)] = grp(o)
+                ops.append({"ev": "rename", "o": o, "n": nn})
+                made.append(nn)
             elif k == "lookup":
-                ops.append({"ev": "lookup", "p": p})
+                ops.append({"ev": "lookup", "p": pick()})
             elif k == "list":
+                p = pick()
                 ops.append({"ev": "list", "p": p[:-1] if rng.random() < 0.4 else p})
         out.append(ops)
     return out
+
+
+def sample_pref(rng, hists, n, pref, share=0.6):
+    """sample n histories, a share of them from those satisfying pref (a predicate on the inputs)"""
+    a = [h for h in hists if pref(h)]
+    b = [h for h in hists if not pref(h)]
+    k = min(len(a), int(n * share))
+    return sample(rng, a, k) + sample(rng, b, n - k)
+
+
+def link_then(kinds):
+    """input predicate: a link followed later by one of the given operation kinds"""
+    def f(h):
+        seen = False
+        for op in h:
+            if seen and op["ev"] in kinds:
+                return True
+            if op["ev"] == "link":
+                seen = True
+        return False
+    return f
+
+
+def mc_and_generate(ctx, inst, timeout=1500, workers=4):
+    """One TLC run that is both: a model check of the invariants / action properties in the cfg (must be
+    green) and the G2 generator (INVARIANT EmitW prints one shortest history per distinct VIEW value)."""
+    import vf
+    r = ctx.model_check(inst, workers=workers, timeout=timeout, label="invariants + G2 witnesses (one run)")
+    seen, res = set(), []
+    for t, rest in r.prints:
+        if t == "W" and rest not in seen:
+            seen.add(rest)
+            res.append(json.loads(vf.parse_tla_string(rest)))
+    ctx.mc_runs[-1]["behaviours"] = len(res)
+    return res
 
 
 def write_script(path, hists):
